@@ -4,6 +4,7 @@ package main
 // every compressing collector, then every reader over the produced stream.
 
 import (
+	"bytes"
 	"errors"
 	"fmt"
 	"path/filepath"
@@ -148,6 +149,21 @@ func init() {
 			runAndRead(ho, ro, id, sameSchemaCase(kind, pickWrapper(r, kind), n, docs), false)
 		}
 		r.tsSeconds = false
+		// 1b. reference documents whose size puts the two count words of the payload across a 4096-byte boundary of the
+		// decompressed stream (the reader goes through a buffered reader of that size): a padding string sweeps the
+		// sizes 4080..4100 and 8180..8196
+		for _, base := range []int{4080, 8180} {
+			for sz := base; sz <= base+18; sz++ {
+				// document = 4 (length) + [0x02 "p\0" len32 text \0] + [0x12 "x\0" int64] + 1 (terminator)
+				pad := sz - (4 + 1 + 2 + 4 + 1 + 1 + 2 + 8 + 1)
+				var docs [][]elem
+				for k := 0; k < 3; k++ {
+					docs = append(docs, []elem{{"p", &val{T: 0x02, B: bytes.Repeat([]byte{'q'}, pad)}}, {"x", &val{T: 0x12, I: int64(1000 + 7*k)}}})
+				}
+				id++
+				runAndRead(ho, ro, id, sameSchemaCase([]string{"batch", "stream"}[sz%2], "", 5, docs), false)
+			}
+		}
 		// 2. exhaustive delta matrices with entries in {0,+1,-1}
 		type ms struct{ m, s int }
 		shapes := []ms{{1, 1}, {1, 2}, {2, 1}, {2, 2}, {1, 3}, {3, 1}, {2, 3}}
